@@ -1,7 +1,7 @@
 (* Sem/Scope.v — model of how FORD resolves cross-references inside one program unit (property
    C07) and the independent Spec.  Definitions only; proofs are in Sem/ScopeProofs.v.
 
-   Mirrors (remaining defect included), for one top-level unit (module, program, external procedure,
+   Mirrors, for one top-level unit (module, program, external procedure,
    block data) and everything nested in it:
      ford/sourceform.py  FortranCodeUnit._cleanup / FortranModule._cleanup  -> own all_procs keys (s_procs)
                          FortranCodeUnit.correlate 1191-1207, 1256-1284, 1315-1331
@@ -18,6 +18,9 @@
    procedure did not shadow a host procedure, local declarations leaked through shared dictionary
    objects): each of all_procs, all_absinterfaces, all_types starts as a COPY of the parent's, the
    scope's own declarations are written over it, and the names from USED modules are merged last.
+   The names of procedures and abstract interfaces are identifiers of one kind: an abstract
+   interface declared in a scope, or obtained there by use association, removes the host's
+   procedure of the same name from the copy of the host's all_procs.
    The model keeps a store of tables addressed by table id (what is read from the parent is what
    the parent's table holds when the child is entered) and processes the unit as the sequence of
    events of FORD's depth-first traversal:
@@ -28,9 +31,9 @@
    bodies, abstract interface bodies).
 
    The names a scope obtains by USE association are an input here (s_imports): property C06.
-   A submodule (KSub) is a unit whose dictionaries, after its own declarations have been entered,
-   are updated WITH those of its parent submodule if it has one, else of its ancestor module
-   (FortranCodeUnit.correlate 1209-1220); the finished units are kept in st_units.
+   A submodule (KSub) is a unit whose dictionaries start as a copy of those of its parent submodule
+   if it has one, else of its ancestor module (FortranCodeUnit.correlate: {**host, **own}); the
+   finished units are kept in st_units.
    Outside the model: pairing of separate module procedures with their interfaces, generic
    type-bound bindings (resolved among the type's own bindings), inherited components/bindings,
    namelists and call chains (all_vars), enumerators, common blocks. *)
@@ -60,9 +63,8 @@ Inductive skind :=
   | KProc     (* a procedure contained in a unit or in another procedure *)
   | KBody     (* the body of an interface / abstract interface block: reached through the interface
                  object, which aliases its host's all_procs, all_types, all_absinterfaces *)
-  | KSub.     (* a submodule: a unit (no parent tables) whose dictionaries are UPDATED WITH those of its
-                 parent submodule (if it has one) or else its ancestor module, after its own
-                 declarations have been entered: the host's entries win over the submodule's own *)
+  | KSub.     (* a submodule: a unit whose host is its parent submodule (if it has one) or else its
+                 ancestor module, a unit finished before; its own declarations hide the host's *)
 
 Record srec := {
   s_path : list str;                 (* unit name ... scope name *)
@@ -115,7 +117,7 @@ Inductive sdesc :=
   | SCtor (t : str)                      (* constructor *)
   | SModproc (g : str) (i : nat).        (* procedure of the i-th module procedure of a generic *)
 (* which dictionaries a lookup goes through: all_types; all_procs; all_procs then all_absinterfaces *)
-Inductive look := LType | LProc | LProcAbs | LAbs.   (* LAbs: all_absinterfaces alone (no slot uses it; Spec side) *)
+Inductive look := LType | LProc | LProcAbs.
 (* a reference to be resolved: where, which slot, how, which name *)
 Record req := { q_scope : list str; q_slot : sdesc; q_look : look; q_name : str }.
 (* a resolved (or not) reference: the entity found, None = the name stays a string *)
@@ -169,7 +171,6 @@ Definition model_resolver (ss : stores) (E : env) : resolver :=
                 | Some e => Some e
                 | None => assoc_get n (tab ss E CAbs)
                 end
-  | LAbs => assoc_get n (tab ss E CAbs)
   end.
 
 (* ------------------------------------------------------------------ traversal *)
@@ -203,20 +204,27 @@ Definition parent_env (Sc : srec) (stack : list env) : option env :=
   | _, E :: _ => Some E
   | _, [] => None
   end.
+(* the scope whose dictionaries are copied: the enclosing scope; for a submodule its host unit *)
+Definition host_env (Sc : srec) (s : state) : option env :=
+  match s_kind Sc with
+  | KSub => find_unit_env (st_units s) (s_host Sc)
+  | _ => parent_env Sc (st_stack s)
+  end.
+(* a dictionary without the keys in [names] *)
+Definition drop (names : list str) (t : table) : table :=
+  filter (fun kv => negb (str_in (fst kv) names)) t.
+(* the dictionary of class c of scope Sc, [base] being its host's:
+     {**host's, **own declarations}, then .update(names from USED modules);
+   all_procs: the host's entries named like an abstract interface of Sc (declared there, or
+   obtained from a USED module) are left out *)
+Definition abs_names (Sc : srec) : list str := s_abs Sc ++ map fst (imports_of Sc CAbs).
+Definition scope_table (Sc : srec) (c : cls) (base : table) : table :=
+  update (update (match c with CProc => drop (abs_names Sc) base | _ => base end)
+                 (own Sc (own_names Sc c))) (imports_of Sc c).
 Definition enter_scope (Sc : srec) (s : state) : state :=
   let ss := st_stores s in
   let n := st_next s in
-  let parent := parent_env Sc (st_stack s) in
-  (* every dictionary: {**parent's, **own declarations}, then .update(names from USED modules);
-     a submodule: own declarations, .update(host unit's dictionary), then the names from USED modules *)
-  let mk := fun c =>
-    match s_kind Sc with
-    | KSub => update (update (update [] (own Sc (own_names Sc c)))
-                             (match find_unit_env (st_units s) (s_host Sc) with Some E => tab ss E c | None => [] end))
-                     (imports_of Sc c)
-    | _ => update (update (match parent with Some E => tab ss E c | None => [] end)
-                          (own Sc (own_names Sc c))) (imports_of Sc c)
-    end in
+  let mk := fun c => scope_table Sc c (match host_env Sc s with Some E => tab ss E c | None => [] end) in
   let ia := n in
   let it := n in
   let ss' := {| sp := st_set n (mk CProc) (sp ss); sa := st_set ia (mk CAbs) (sa ss);
@@ -267,7 +275,7 @@ Definition next_path (all : list srec) (p : list str) : list str :=
   | Some Sc => match s_host Sc with [] => removelast p | h => h end
   | None => removelast p
   end.
-Fixpoint resolve_fuel (fuel : nat) (all : list srec) (p : list str) (lookf : srec -> option ent) : option ent :=
+Fixpoint resolve_fuel {A} (fuel : nat) (all : list srec) (p : list str) (lookf : srec -> option A) : option A :=
   match fuel with
   | 0 => None
   | S f =>
@@ -276,38 +284,32 @@ Fixpoint resolve_fuel (fuel : nat) (all : list srec) (p : list str) (lookf : sre
     | None => match p with [] => None | _ :: _ => resolve_fuel f all (next_path all p) lookf end
     end
   end.
-(* procedure(n): n is a procedure with an explicit interface or an abstract interface; one
-   identifier, so the innermost scope that has n in either role decides *)
-Definition look_in (Sc : srec) (lk : look) (n : str) : option ent :=
-  match lk with
-  | LType => local_lookup Sc CType n
-  | LProc => local_lookup Sc CProc n
-  | LProcAbs => match local_lookup Sc CProc n with Some e => Some e | None => local_lookup Sc CAbs n end
-  | LAbs => local_lookup Sc CAbs n
+Definition walk {A} (all : list srec) (p : list str) (lookf : srec -> option A) : option A :=
+  resolve_fuel (S (length p + length all)) all p lookf.
+(* the names of procedures and of abstract interfaces are local identifiers of one kind (Fortran
+   2018 19.3.1 class (1)): the innermost scope that has n in either role decides what n is there.
+   true: a procedure; false: an abstract interface *)
+Definition look_pa (Sc : srec) (n : str) : option (bool * ent) :=
+  match local_lookup Sc CProc n with
+  | Some e => Some (true, e)
+  | None => match local_lookup Sc CAbs n with Some e => Some (false, e) | None => None end
   end.
+(* type(n): the type n; a procedure name n (binding target, final, module procedure, constructor):
+   n if it denotes a procedure; procedure(n): n, procedure or abstract interface *)
 Definition spec_resolver (all : list srec) (p : list str) : resolver :=
-  fun lk n => resolve_fuel (S (length p + length all)) all p (fun Sc => look_in Sc lk n).
-Definition resolve_in (all : list srec) (p : list str) (c : cls) (n : str) : option ent :=
-  spec_resolver all p (match c with CType => LType | _ => LProc end) n.
-
-(* FORD's reading of procedure(n): a visible procedure n, else a visible abstract interface n *)
-Definition procs_first (R : resolver) : resolver :=
-  fun lk n => match lk with
-              | LProcAbs => match R LProc n with Some e => Some e | None => R LAbs n end
-              | _ => R lk n
-              end.
+  fun lk n =>
+  match lk with
+  | LType => walk all p (fun Sc => local_lookup Sc CType n)
+  | LProc => match walk all p (fun Sc => look_pa Sc n) with Some (true, e) => Some e | _ => None end
+  | LProcAbs => match walk all p (fun Sc => look_pa Sc n) with Some (_, e) => Some e | None => None end
+  end.
 
 (* the Spec's answer for every slot of a unit *)
 Definition spec (evs : list event) : list res :=
   let all := scopes_of evs in
   flat_map (fun Sc => map (answer (spec_resolver all (s_path Sc))) (enter_reqs Sc ++ exit_reqs Sc)) all.
 
-(* the Spec with FORD's reading of procedure(n) (used to state what the model does in every case) *)
-Definition spec_procs_first (evs : list event) : list res :=
-  let all := scopes_of evs in
-  flat_map (fun Sc => map (answer (procs_first (spec_resolver all (s_path Sc)))) (enter_reqs Sc ++ exit_reqs Sc)) all.
-
-(* ------------------------------------------------------------------ well-formed input, regions *)
+(* ------------------------------------------------------------------ well-formed input *)
 (* events are well bracketed; a unit is entered on an empty stack, every other scope inside its
    host, its path being the host's path plus one name; the host unit of a submodule has been
    finished before; paths are pairwise different *)
@@ -353,31 +355,6 @@ Definition scope_legal (Sc : srec) : bool :=
                     && forallb (fun n => negb (str_in n (map fst (imports_of Sc c)))) (own_names Sc c))
           [CProc; CAbs; CType].
 Definition scopes_legal (evs : list event) : bool := forallb scope_legal (scopes_of evs).
-(* region of the remaining finding: procedure(n) where the innermost scope that knows n has it as
-   an abstract interface while an outer scope has a procedure n.  FORD looks through all_procs
-   (every visible procedure, at any depth) before all_absinterfaces. *)
-Definition procabs_ok (all : list srec) (p : list str) (n : str) : bool :=
-  opt_eqb ent_eqb (spec_resolver all p LProcAbs n)
-          (match spec_resolver all p LProc n with Some e => Some e | None => spec_resolver all p LAbs n end).
-(* region of the submodule finding: an own declaration of a submodule bears a name that is visible
-   in its parent submodule / ancestor module (the host's entity replaces the submodule's own) *)
-Definition sub_shadow_free (evs : list event) : bool :=
-  let all := scopes_of evs in
-  forallb (fun Sc => match s_kind Sc with
-                     | KSub => forallb (fun c => forallb (fun n =>
-                                   match spec_resolver all (s_host Sc)
-                                           (match c with CType => LType | CProc => LProc | CAbs => LAbs end) n with
-                                   | Some _ => false
-                                   | None => true
-                                   end) (own_names Sc c)) [CProc; CAbs; CType]
-                     | _ => true
-                     end) all.
-Definition procabs_consistent (evs : list event) : bool :=
-  let all := scopes_of evs in
-  forallb (fun Sc => forallb (fun q => match q_look q with
-                                       | LProcAbs => procabs_ok all (s_path Sc) (q_name q)
-                                       | _ => true
-                                       end) (enter_reqs Sc ++ exit_reqs Sc)) all.
 (* the name is not declared or use-associated anywhere in the unit, in any role *)
 Definition mentioned (evs : list event) (n : str) : bool :=
   let all := scopes_of evs in
